@@ -5,6 +5,9 @@ import (
 	"go/token"
 	"go/types"
 	"strings"
+	"sync"
+
+	"golang.org/x/tools/go/ssa"
 
 	"gosx/smt"
 )
@@ -192,4 +195,61 @@ func mustDeref(t types.Type) types.Type {
 		return ptr.Elem()
 	}
 	panic(fmt.Sprintf("%v is not a pointer", t))
+}
+
+// envIndex numbers the SSA values of a function so that a frame's
+// environment is a slice.
+type envIndex struct {
+	slot map[ssa.Value]int32
+	n    int
+}
+
+var envIndexCache sync.Map // *ssa.Function -> *envIndex
+
+func envIndexOf(fn *ssa.Function) *envIndex {
+	if v, ok := envIndexCache.Load(fn); ok {
+		return v.(*envIndex)
+	}
+	e := &envIndex{slot: map[ssa.Value]int32{}}
+	add := func(v ssa.Value) {
+		if _, ok := e.slot[v]; !ok {
+			e.slot[v] = int32(e.n)
+			e.n++
+		}
+	}
+	for _, p := range fn.Params {
+		add(p)
+	}
+	for _, fv := range fn.FreeVars {
+		add(fv)
+	}
+	for _, l := range fn.Locals {
+		add(l)
+	}
+	for _, b := range fn.Blocks {
+		for _, in := range b.Instrs {
+			if v, ok := in.(ssa.Value); ok {
+				add(v)
+			}
+		}
+	}
+	v, _ := envIndexCache.LoadOrStore(fn, e)
+	return v.(*envIndex)
+}
+
+func (fr *frame) set(k ssa.Value, v value) {
+	fr.vals[fr.idx.slot[k]] = v
+}
+
+func (fr *frame) lookup(k ssa.Value) (value, bool) {
+	s, ok := fr.idx.slot[k]
+	if !ok {
+		return nil, false
+	}
+	v := fr.vals[s]
+	return v, v != nil
+}
+
+func (fr *frame) mustLookup(k ssa.Value) value {
+	return fr.vals[fr.idx.slot[k]]
 }
